@@ -283,3 +283,55 @@ def shrink_case(case, fails, max_evals=350):
                 best, improved = cand, True
                 break
     return best
+
+
+# ----------------------------------------------------------------------------- generic replay / shrink
+
+
+def replay_with(eval_fn):
+    def replay(case):
+        from pestverif.modes import Modes
+
+        m = Modes()
+        try:
+            return eval_fn(m, case)
+        finally:
+            m.close()
+
+    return replay
+
+
+def shrink_with(eval_fn, shrink_start_pos=True):
+    def shrink(case):
+        from pestverif.modes import Modes
+
+        m = Modes()
+        try:
+            first = eval_fn(m, case)
+            if not first:
+                return case
+            cls = first.split(":")[0]
+
+            def fails(c):
+                r = eval_fn(m, c)
+                return bool(r) and r.split(":")[0] == cls
+
+            best = case
+            if shrink_start_pos and case.get("start_pos"):
+                cand = dict(case)
+                cand["input"] = case["input"][case["start_pos"] :]
+                cand["start_pos"] = 0
+                if fails(cand):
+                    best = cand
+            best = shrink_case(best, lambda c: _clamp(c) and fails(c))
+            return best
+        finally:
+            m.close()
+
+    return shrink
+
+
+def _clamp(c):
+    if c.get("start_pos", 0) > len(c["input"]):
+        c["start_pos"] = len(c["input"])
+    return True
